@@ -197,7 +197,7 @@ def OVERLAY_SPLIT(op):
 
 
 TAG_RULES = [
-    (r'txs_to_csv_table|export_order_non_deprecated_cols|lemma_table_reads_back|lemma_omitted_column|lemma_header_member|lemma_export_distinct', ['C10', 'C18']),
+    (r'txs_to_csv_table|export_order_non_deprecated_cols|lemma_table_reads_back|lemma_omitted_column|lemma_header_member|lemma_export_distinct|lemma_val_of_col|lemma_cell_texts|lemma_field_back|lemma_needed|lemma_back_|theorem_written_row_reads_back|lemma_non_optional_in_header', ['C10', 'C18']),
     (r'tx_csv::', ['C07']),
     (r'input_parse::', ['C16']),
     (r'approot::', ['C07', 'C08', 'C16', 'C04']),
